@@ -2,8 +2,8 @@ package gosx
 
 import (
 	"fmt"
-	"sort"
 	"go/types"
+	"sort"
 
 	"golang.org/x/tools/go/ssa"
 )
